@@ -179,6 +179,17 @@ func c07Carriers(res *engine.Result, sec *ref.PATSection, cc byte, allPIDs bool)
 			c07Verify(res, "payload+stuffing", cls, pat, &m, probes[:3], false)
 		}
 	}
+	// stuffed up to the next two multiples of the packet size (a buffer of 188 bytes is taken for a packet
+	// and is the documented exception; 376, 564, ... bytes are still a payload)
+	for _, total := range [...]int{(len(payload) + 187) / 188 * 188, (len(payload)+187)/188*188 + 188} {
+		if total == 188 || total == len(payload) {
+			continue
+		}
+		in := ref.PadPayload(payload, total)
+		if pat := newPAT("payload+stuffing", in); pat != nil {
+			c07Verify(res, "payload+stuffing-to-a-multiple-of-188", cls, pat, &m, probes[:3], false)
+		}
+	}
 	if len(payload) > 184 {
 		res.Event("section-larger-than-a-packet")
 		return
